@@ -152,7 +152,22 @@ def g1_witness():
     return {"id": "corpus-g1", "nodes": [a, b], "ops": ops, "phase_start": start, "round_ends": ends}
 
 
-CORPUS = [g1_witness()]
+def many_small_witness(nkeys=450, mx=400, rounds=46):
+    """an owner with far more (tiny) outstanding entries than a datagram has BYTES: every partial delta announces the number of
+    entries outstanding for the node, not the number it carries; the backlog still drains, a little every round
+    (seeded changes C03-10 / C13-9: a decoder sanity check rejecting such packets)"""
+    a, b = {"id": H("a"), "addr": H("10.0.0.1:7000")}, {"id": H("b"), "addr": H("10.0.0.2:7000")}
+    ops = [{"op": "upsert", "n": 1, "k": H("k%03d" % j), "v": H("")} for j in range(nkeys)]
+    ops += [{"op": "join", "a": 0, "b": 1}] if False else exchange(0, 1, 1400)[:1] + [{"op": "deliver", "i": 0, "max": 1400}] * 4
+    start = len(ops)
+    ends = []
+    for r in range(rounds):
+        ops += exchange(0, 1, mx) + exchange(1, 0, mx)
+        ends.append(len(ops))
+    return {"id": "corpus-many-small", "nodes": [a, b], "ops": ops, "phase_start": start, "round_ends": ends}
+
+
+CORPUS = [g1_witness(), many_small_witness()]
 
 
 def run(ctx):
